@@ -104,7 +104,7 @@ mutant("m14k", "C14", "asmjit/arm/a64assembler.cpp", "        if (m.index_type()
 mutant("m14l", "C14", "asmjit/arm/a64assembler.cpp", "        uint64_t cond = o2.as<Imm>().value_as<uint64_t>();\n        if (cond - 2u >= 0xEu)", "        uint64_t cond = o2.as<Imm>().value_as<uint64_t>();\n        if (cond - 2u > 0xEu)", "revert fix: cinc/cinv/cneg accept condition code 16")
 mutant("m14m", "C14", "asmjit/x86/x86instapi.cpp", "if (ASMJIT_UNLIKELY(base_id >= 32 || !Support::bit_test(vd->allowed_reg_mask[size_t(base_type)], base_id))) {", "if (ASMJIT_UNLIKELY(base_id >= 32)) {", "revert fix: x86 validator accepts a memory base register id outside the register file")
 mutant("m14n", "C14", "asmjit/x86/x86instapi.cpp", "            if (mode == InstDB::Mode::kX86) {\n              // 32-bit mode: Make sure that the address is either `int32_t` or `uint32_t`.\n              if (!Support::is_uint_n<32>(offset)) {", "            if (mode == InstDB::Mode::kX86) {\n              // 32-bit mode: Make sure that the address is either `int32_t` or `uint32_t`.\n              if (!Support::is_uint_n<32>(offset) && index_type != RegType::kNone) {", "x86-32 validator accepts a 64-bit absolute address without index")
-mutant("m16h", "C16", "asmjit/core/rapass.cpp", "  for (BaseNode* node = func; node && node != _stop; node = node->next()) {\n    node->reset_pass_data();\n  }\n", "", "revert fix: label nodes keep the register allocator's block after the function is done")
+mutant("m16h", "C16", "asmjit/core/rapass.cpp", "  for (BaseNode* node = func; node && node != _stop; node = node->next()) {\n    node->reset_pass_data();\n  }\n\n  // A label that is not bound inside of this function (a branch target outside of it) got a block as well.\n  for (LabelNode* label_node : cc()._label_nodes) {\n    if (label_node) {\n      label_node->reset_pass_data();\n    }\n  }\n", "", "revert fix: label nodes keep the register allocator's block after the function is done")
 mutant("m16i", "C16", "asmjit/core/builder.cpp", "  (*out)->reset_op_range(0, op_capacity);\n", "", "revert fix: new_inst_node() leaves the operands uninitialized")
 mutant("m18i", "C18", "asmjit/support/arena.cpp", "  size = Support::min<size_t>(size_t(result), ASMJIT_ARRAY_SIZE(buf) - 2);", "  size = size_t(result);", "revert fix: sformat() uses the untruncated length")
 mutant("m09n", "C09", J, "         !Support::bit_vector_get_bit(block->_stop_bit_vector, area_start - 1u)) {\n    area_start--;\n  }", "         !Support::bit_vector_get_bit(block->_stop_bit_vector, area_start - 1u)) {\n    break;\n  }", "revert fix: query() of an interior pointer returns a partial span")
